@@ -33,9 +33,15 @@ func runSSO(c SSOCase) (*ssoRun, error) {
 	if c.PersistFault {
 		spec.Faults = append(append([]world.Fault(nil), spec.Faults...), world.Fault{Op: "CreateAuthRequest", Occurrence: 0, Kind: "error"})
 	}
+	if c.Noise {
+		spec = withNoise(spec)
+	}
 	w, err := world.Build(spec)
 	if err != nil {
 		return nil, err
+	}
+	if c.Noise {
+		runNoise(w, spec)
 	}
 	runPrelude(w, c.Spec, c.Prelude)
 	now := time.Now()
@@ -218,6 +224,7 @@ func genC08Case(t *rapid.T) SSOCase {
 		applyModelDefect(&c, d, c.Host)
 	}
 	c.PersistFault = rapid.IntRange(0, 5).Draw(t, "persistfault") == 0
+	c.Noise = rapid.IntRange(0, 2).Draw(t, "noise") == 0
 	return c
 }
 
@@ -227,6 +234,9 @@ func c08Oracle(c SSOCase, r *ssoRun) []*ev.Violation {
 	n := len(okCalls)
 	if r.Rep.Panic != "" {
 		return []*ev.Violation{ev.V("C08/panic", "handler panicked: %s", short(r.Rep.Panic, 120))}
+	}
+	if c.Noise && noiseLeak(r.Rep) {
+		vs = append(vs, ev.V("C08/foreign-state-in-reply", "the reply carries data of an unrelated service provider / user that used the provider earlier"))
 	}
 	if len(okCalls)+len(failedCalls) > 1 {
 		vs = append(vs, ev.V("C08/persist-attempted-more-than-once", "CreateAuthRequest called %d times for one request", len(okCalls)+len(failedCalls)))
